@@ -80,6 +80,17 @@ CHECKS = {
         "filter; known findings matched exactly from pins/C02.json.",
         "DESIGN.md section 5 C02",
     ),
+    "C09": (
+        "vmc/c09.py (E1 + E6 generators, differential across dialects)",
+        "exploration",
+        "deviation-bounded exhaustive enumeration of core statements x all installed dialects + the sqlparse analyzer; differential oracle against ansi",
+        "Every core statement of the C01 and C02 generators within 1 (quick) / 2 (thorough) deviations is analysed under all 28 sqlfluff dialects "
+        "and the legacy analyzer, and within 2 / 3 deviations under a spread of 11 grammar families; every accepting dialect must give ansi's tables and "
+        "column pairs, the legacy analyzer ansi's tables. No reference model is involved.",
+        "Trusted: sqlfluff as the judge of acceptance; ansi as the point of comparison (a change that breaks every dialect alike is C01/C02's business); "
+        "known per-dialect findings matched exactly from pins/C09.json.",
+        "DESIGN.md section 5 C09",
+    ),
 }
 
 NOT_YET = "check not built yet in this revision (planned in DESIGN.md section 5/11); not claimed"
